@@ -3,10 +3,13 @@
    the PNG it creates is `output` of a candidate image of the pipeline, so C02 (container), C08
    (dimensions) and the provenance theorem apply; attached chunks pass through the same policy /
    preprocess / postprocess functions as C07 and C14.
-   PARTIAL: pixel fidelity of the created file inherits C01's partial status and is decided per run
-   by the specification oracle on generated tuples. *)
+   PIXELS (C11_created_decodes): the file created for a raw image that means `pic` (the given samples under the given
+   colour type, palette or key, depth) is decoded by the specification's whole-file decoder to `pic` - to an alpha-equivalent
+   picture under alpha optimisation - with the chunks the caller attached passing the policy (zlib oracle; attached chunk
+   names 4 bytes, not IEND/PLTE/tRNS; dimensions below 2^32). *)
 From OxiVerif Require Import Base.Common Model.Types Model.Options Model.Headers Model.PngData Model.Optimize
   Model.Reductions Proofs.RobustProofs Proofs.PipelineProofs Proofs.EffectProofs Proofs.ReductionInv.
+From OxiVerif Require Import Spec.Adam7 Spec.Sem Spec.Decode Spec.DecodeFile Proofs.Bridge Proofs.LiftColor Proofs.LiftAlpha Proofs.ContainerOk.
 
 Theorem C11_rejects_not_panics : forall w h c d dat, is_panic (raw_image_new w h c d dat) = false.
 Proof. exact raw_image_new_never_panics. Qed.
@@ -33,3 +36,14 @@ Proof.
   intros b evs Hpr. eapply dims_preserved; eauto.
 Qed.
 Print Assumptions C11_created_from_candidate.
+
+(* the created file shows the picture the raw image means *)
+Theorem C11_created_decodes : forall e o (inflate : list Z -> option (list Z)) r out pic N M,
+  scale_16 o = false -> wf (ri_png r) -> sem (ri_png r) = Some pic ->
+  0 <= width (hdr (ri_png r)) < 2 ^ 32 -> 0 <= height (hdr (ri_png r)) < 2 ^ 32 ->
+  Forall (chunk_ok N) (ri_aux r) -> 0 <= N -> N + 5 <= M -> M + 4 < 2 ^ 31 -> (forall d s, lenZ (z_deflate e d s) <= M) ->
+  (forall d s, inflate (z_deflate e d s) = Some s) ->
+  raw_create e r o = Ok out ->
+  exists pic', spec_decode_png inflate out = Some pic' /\ pic_aequiv pic pic' /\ (optimize_alpha o = false -> pic' = pic).
+Proof. exact raw_create_decodes. Qed.
+Print Assumptions C11_created_decodes.
